@@ -5,6 +5,7 @@ import (
 	"strings"
 
 	"git.sr.ht/~rockorager/vaxis/ansi"
+	"git.sr.ht/~rockorager/vaxis/zzverif"
 )
 
 // Helpers exported to harnesses living in other packages (overlay only).
@@ -126,4 +127,11 @@ func VerifParseSGR(params [][]int) Style {
 	var st Style
 	parseSGR(params, &st)
 	return st
+}
+
+// VerifForceLegacySGR applies the VAXIS_FORCE_LEGACY_SGR quirk (semicolon forms of the
+// extended colours in everything the renderer and the cell encoder write).
+func VerifForceLegacySGR() {
+	zzverif.Setenv("VAXIS_FORCE_LEGACY_SGR", "1")
+	verifBareVaxis(1, 1).applyQuirks()
 }
